@@ -15,15 +15,15 @@ kernel afreq: pybrops/popgen/gmat/DenseGenotypeMatrix.py :: DenseGenotypeMatrix.
 kernel apoly: pybrops/popgen/gmat/DenseGenotypeMatrix.py :: DenseGenotypeMatrix.apoly  sha=88177ebafddabc1a  ok
     slice: targets ['out'] -> out
     out of scope (parameter): afreq = self.afreq()
-kernel meh: pybrops/popgen/gmat/DenseGenotypeMatrix.py :: DenseGenotypeMatrix.meh  sha=1ef2ec2cb169cb19  FAILED
+kernel meh: pybrops/popgen/gmat/DenseGenotypeMatrix.py :: DenseGenotypeMatrix.meh  sha=d8dec49067fb4e7d  ok
     slice: targets ['out', 'p', 'rnphase'] -> out
-    meh (pybrops/popgen/gmat/DenseGenotypeMatrix.py:DenseGenotypeMatrix.meh): Untranslatable: subscript `p[(p > 0.0) & (p < 1.0)]`
+    out of scope (parameter afreq): `self.afreq()`
 kernel gtfreq: pybrops/popgen/gmat/DenseGenotypeMatrix.py :: DenseGenotypeMatrix.gtfreq  sha=2d09aa5c62011217  ok
     slice: targets ['out', 'recip'] -> out
     out of scope (parameter gtcount): `self.gtcount()`
-kernel afixed: pybrops/popgen/gmat/DenseGenotypeMatrix.py :: DenseGenotypeMatrix.afixed  sha=83aeae2d6b5fc799  ok
+kernel afixed: pybrops/popgen/gmat/DenseGenotypeMatrix.py :: DenseGenotypeMatrix.afixed  sha=1089bb60512c7a92  FAILED
     slice: targets ['out'] -> out
-    out of scope (parameter): afreq = self.afreq()
+    afixed (pybrops/popgen/gmat/DenseGenotypeMatrix.py:DenseGenotypeMatrix.afixed): Untranslatable: call `(gtcount == self.ntaxa).any(0)`
 kernel maf: pybrops/popgen/gmat/DenseGenotypeMatrix.py :: DenseGenotypeMatrix.maf  sha=155e14948454c1ef  ok
     slice: targets ['mask', 'out'] -> out
     out of scope (parameter afreq): `self.afreq(dtype)`
@@ -61,7 +61,12 @@ def apoly {α : Type} [OfNat α 0] [OfNat α 1] [LT α] [DecidableLT α] (afreq 
   out
 
 /-- pybrops/popgen/gmat/DenseGenotypeMatrix.py :: DenseGenotypeMatrix.meh; model counterpart: Genotype.mehOf -/
--- NOT TRANSLATED: meh (pybrops/popgen/gmat/DenseGenotypeMatrix.py:DenseGenotypeMatrix.meh): Untranslatable: subscript `p[(p > 0.0) & (p < 1.0)]`
+def meh {α : Type} [Add α] [Sub α] [Mul α] [Div α] [OfNat α 0] [OfNat α 1] (ploidy : α) (nvrnt : α) (afreq : List α) : α :=
+  let p := afreq
+  let out := (Np.dot p (List.map (fun x => 1 - x) p))
+  let rnphase := (ploidy / nvrnt)
+  let out := (out * rnphase)
+  out
 
 /-- pybrops/popgen/gmat/DenseGenotypeMatrix.py :: DenseGenotypeMatrix.gtfreq; model counterpart: Genotype.gtfreqAt -/
 def gtfreq {α : Type} [Mul α] [Div α] [OfNat α 1] (ntaxa : α) (gtcount : α) : α :=
@@ -70,9 +75,7 @@ def gtfreq {α : Type} [Mul α] [Div α] [OfNat α 1] (ntaxa : α) (gtcount : α
   out
 
 /-- pybrops/popgen/gmat/DenseGenotypeMatrix.py :: DenseGenotypeMatrix.afixed; model counterpart: Genotype.afixedOf -/
-def afixed {α : Type} [OfNat α 0] [OfNat α 1] [DecidableEq α] (afreq : α) : Bool :=
-  let out : Bool := decide ((afreq = 0) ∨ (afreq = 1))
-  out
+-- NOT TRANSLATED: afixed (pybrops/popgen/gmat/DenseGenotypeMatrix.py:DenseGenotypeMatrix.afixed): Untranslatable: call `(gtcount == self.ntaxa).any(0)`
 
 /-- pybrops/popgen/gmat/DenseGenotypeMatrix.py :: DenseGenotypeMatrix.maf; model counterpart: Genotype.mafOf -/
 def maf {α : Type} [Sub α] [Div α] [OfNat α 1] [OfNat α 2] [LT α] [DecidableLT α] (afreq : α) : α :=
